@@ -1046,8 +1046,10 @@ class _FoldConstTests(ast.NodeTransformer):
     def visit_BoolOp(self, node):
         self.generic_visit(node)
         vals = list(node.values)
-        while len(vals) > 1 and isinstance(vals[0], ast.Constant):
-            truthy = bool(vals[0].value)
+        while len(vals) > 1 and isinstance(vals[0], (
+                ast.Constant, ast.Tuple, ast.List)):
+            truthy = bool(vals[0].value) \
+                if isinstance(vals[0], ast.Constant) else bool(vals[0].elts)
             if isinstance(node.op, ast.Or) == truthy:
                 return vals[0]          # decides the whole expression
             vals = vals[1:]
@@ -4380,6 +4382,183 @@ def _split_selector_calls(trees, known):
     return n
 
 
+def _with_contextmanagers(trees, known):
+    """@contextmanager
+       def translating(exc_class, *args):
+           try:
+               yield
+           except CommandError as err:
+               raise exc_class(*args) from err
+       ...
+       with translating(PushFailed, name):  BODY
+    ->
+       try:  BODY
+       except CommandError as err:  raise PushFailed(name) from err
+    for a module-level generator context manager the census does not know,
+    with one bare `yield` statement (in its body or in the body of a `try`
+    of its body), used only as the single item of `with` statements of its
+    own module, with plain arguments."""
+    n = 0
+    for path, tree in trees.items():
+        if '/_verif_' in path:
+            continue
+        mod = modname_of(path)
+        for fn in [st for st in tree.body
+                   if isinstance(st, ast.FunctionDef)]:
+            if '%s.%s' % (mod, fn.name) in known or \
+                    len(fn.decorator_list) != 1 or \
+                    ast.unparse(fn.decorator_list[0]) not in (
+                        'contextmanager', 'contextlib.contextmanager'):
+                continue
+            yields = [x for x in ast.walk(fn)
+                      if isinstance(x, (ast.Yield, ast.YieldFrom))]
+            if len(yields) != 1 or not isinstance(yields[0], ast.Yield) or \
+                    yields[0].value is not None or any(
+                        isinstance(x, (ast.Return, ast.Global, ast.Nonlocal,
+                                       ast.FunctionDef, ast.Lambda))
+                        for x in ast.walk(fn) if x is not fn):
+                continue
+            body = _body_wo_doc(fn)
+
+            def is_yield(st):
+                return isinstance(st, ast.Expr) and st.value is yields[0]
+            where = None
+            for i, st in enumerate(body):
+                if is_yield(st):
+                    where = ('top', i)
+                elif isinstance(st, ast.Try):
+                    for j, s2 in enumerate(st.body):
+                        if is_yield(s2):
+                            where = ('try', i, j)
+            if where is None:
+                continue
+            a = fn.args
+            if a.kwarg or a.posonlyargs:
+                continue
+            # every use of the name, in every module
+            ok = True
+            sites = []
+            for p2, t2 in trees.items():
+                for x in ast.walk(t2):
+                    if isinstance(x, ast.alias) and fn.name in (x.name,
+                                                                x.asname):
+                        ok = False
+                    if isinstance(x, ast.Attribute) and x.attr == fn.name:
+                        ok = False
+            uses = {id(x) for x in ast.walk(tree) if isinstance(x, ast.Name)
+                    and x.id == fn.name}
+            for w in ast.walk(tree):
+                if isinstance(w, ast.With) and len(w.items) == 1 and \
+                        w.items[0].optional_vars is None and \
+                        isinstance(w.items[0].context_expr, ast.Call) and \
+                        isinstance(w.items[0].context_expr.func, ast.Name) \
+                        and w.items[0].context_expr.func.id == fn.name:
+                    sites.append(w)
+                    uses.discard(id(w.items[0].context_expr.func))
+            if not ok or uses or not sites:
+                continue
+            params = [x.arg for x in a.args]
+            defaults = dict(zip(reversed(params), reversed(a.defaults)))
+            for k_, d_ in zip(a.kwonlyargs, a.kw_defaults):
+                if d_ is not None:
+                    defaults[k_.arg] = d_
+            names = params + [x.arg for x in a.kwonlyargs]
+            own = {x.id for x in ast.walk(fn) if isinstance(x, ast.Name)
+                   and isinstance(x.ctx, (ast.Store, ast.Del))} | {
+                h.name for h in ast.walk(fn)
+                if isinstance(h, ast.ExceptHandler) and h.name}
+            plans = []
+            for w in sites:
+                call = w.items[0].context_expr
+                if any(isinstance(x, ast.Starred) for x in call.args) or \
+                        any(k_.arg is None for k_ in call.keywords):
+                    plans = None
+                    break
+                env = {}
+                extra = []
+                for i, v in enumerate(call.args):
+                    if i < len(params):
+                        env[params[i]] = v
+                    else:
+                        extra.append(v)
+                if extra and not a.vararg:
+                    plans = None
+                    break
+                for k_ in call.keywords:
+                    if k_.arg not in names or k_.arg in env:
+                        plans = None
+                        break
+                    env[k_.arg] = k_.value
+                if plans is None:
+                    break
+                for nm in names:
+                    if nm not in env:
+                        if nm not in defaults:
+                            plans = None
+                            break
+                        env[nm] = defaults[nm]
+                if plans is None:
+                    break
+                if a.vararg:
+                    env[a.vararg.arg] = ast.Tuple(elts=extra, ctx=ast.Load())
+                inner = {x.id for b in w.body for x in ast.walk(b)
+                         if isinstance(x, ast.Name)}
+                if not all(_dup_safe_arg(v) or isinstance(v, ast.Tuple)
+                           for v in env.values()) or own & inner or \
+                        own & set(env):
+                    plans = None
+                    break
+                plans.append((w, env))
+            if not plans:
+                continue
+            for w, env in plans:
+                new = [_Subst(env, {}).visit(copy.deepcopy(st))
+                       for st in body]
+                new = [_SplatFold().visit(st)
+                       for st in _fold_constant_tests(new)]
+                # find the yield again in the copy
+                done = [False]
+
+                def put(stmts):
+                    out = []
+                    for st in stmts:
+                        if isinstance(st, ast.Expr) and \
+                                isinstance(st.value, ast.Yield):
+                            out.extend(w.body)
+                            done[0] = True
+                        else:
+                            if isinstance(st, ast.Try):
+                                st.body = put(st.body)
+                            out.append(st)
+                    return out
+                new = put(new)
+                if not done[0]:
+                    continue
+                for x in new:
+                    ast.copy_location(x, w)
+                _replace_stmt(tree, w, new)
+            tree.body = [st for st in tree.body if st is not fn]
+            ast.fix_missing_locations(tree)
+            n += 1
+    return n
+
+
+def _replace_stmt(tree, old, new):
+    for blk in ast.walk(tree):
+        for name in _BLOCKS:
+            lst = getattr(blk, name, None)
+            if isinstance(lst, list) and old in lst:
+                i = lst.index(old)
+                lst[i:i + 1] = new
+                return True
+        for h in getattr(blk, 'handlers', []) or []:
+            if old in h.body:
+                i = h.body.index(old)
+                h.body[i:i + 1] = new
+                return True
+    return False
+
+
 def _properties_as_methods(trees, known):
     """A read-only property the census does not know, only ever read as
     `self.<name>`: the same program with a plain method and `self.<name>()`,
@@ -4449,6 +4628,7 @@ def normalise(trees, known=None):
     n = desugar(trees)
     n += _split_selector_calls(trees, known)
     _properties_as_methods(trees, known)
+    n += _with_contextmanagers(trees, known)
     ilog = Inliner(trees, known).run()
     ilog += explicit_class_constants(trees, known)
     log = clog + ilog
